@@ -1,3 +1,5 @@
+//go:build !verifwasm
+
 // Package hx holds what the harnesses share: terminal-entry snapshots, the
 // fake Tty, run statistics and the rapid generators for choice streams.
 package hx
